@@ -2314,7 +2314,6 @@ static void _iterator_advance_range(hostlist_iterator_t i)
 char *hostlist_next(hostlist_iterator_t i)
 {
     char *buf = NULL;
-    char suffix[16];
     int len = 0;
     assert(i != NULL);
     assert(i->magic == HOSTLIST_MAGIC);
@@ -2326,18 +2325,19 @@ char *hostlist_next(hostlist_iterator_t i)
         return NULL;
     }
 
-    suffix[0] = '\0';
-
+    /* room for the prefix, the zero padded number (an unsigned long has
+     * at most 20 digits) and the terminating NUL */
+    len = strlen (i->hr->prefix) + 1;
     if (!i->hr->singlehost)
-        snprintf (suffix, 15, "%0*lu", i->hr->width, i->hr->lo + i->depth);
-
-    len = strlen (i->hr->prefix) + strlen (suffix) + 1;
+        len += i->hr->width > 20 ? i->hr->width : 20;
     if (!(buf = malloc (len)))
         out_of_memory("hostlist_next");
 
-    buf[0] = '\0';
-    strcat (buf, i->hr->prefix);
-    strcat (buf, suffix);
+    if (i->hr->singlehost)
+        snprintf (buf, len, "%s", i->hr->prefix);
+    else
+        snprintf (buf, len, "%s%0*lu", i->hr->prefix, i->hr->width,
+                  i->hr->lo + i->depth);
 
     UNLOCK_HOSTLIST(i->hl);
     return (buf);
